@@ -29,7 +29,7 @@ LastComp(r) == LET cs == SelectSeq(r.lines, LAMBDA x : x.comp) IN IF cs = <<>> T
 \* Generator guards: keep away from what the properties leave open (see DESIGN.md 3.2).
 Admissible(l, r) ==
     \* the value of a label that is immediately followed by an origin / alignment / zone directive is open
-    /\ (l.k \in {"org", "orgl", "orgz", "zone", "align"} /\ Active(r.cstk)) => LastComp(r) # "lab"
+    /\ (l.k \in {"org", "orgl", "orgz", "zone", "align", "lzone", "lorgz", "lorg"} /\ Active(r.cstk)) => LastComp(r) # "lab"
     \* a condition over an undefined (or valueless) symbol is open
     \* (== against an undefined symbol is false in the documentation and in the code alike: generated)
     /\ (l.k \in {"if", "elif"} /\ Evaluated(l, r.cstk)) => Val(r.defs, l.n) # -1
